@@ -197,7 +197,15 @@ def rule_wrap(ctx):
     # future was found not done never delegates
     for replies, delegated, out, ev in paths:
         via_timeout = any(e[0] == "exc" and e[1] == "TimeoutError" for e in ev)
-        if not via_timeout or out[0] in ("cut", "raise"):
+        if out[0] in ("cut", "raise"):
+            continue
+        if not via_timeout:
+            if delegated:
+                # a delegation that is not the timeout path must come after the awaited aggregate completed
+                waited = any(any(c is w_ for w_ in waits for c in walk_self(n_)) for n_ in evaluated(ev))
+                ctx.ob("C03.WRAP", w, "delegation without a timeout happens only after the awaited aggregate of all required futures completed", waited,
+                       "the guard calls the wrapped handler on a path that neither awaited the required futures nor tested each of them with done() "
+                       "(a membership / truthiness test on the session is not the presence future)", construct="wrapper:delegation without waiting")
             continue
         tests = []
         for e in ev:
@@ -444,4 +452,11 @@ def rule_table(ctx):
                 ctx.fail("C03.TABLE", n, f"command table modified in {fn.name}", construct=f"{fn.name}:table item store")
 
 
-RULES = [rule_guard, rule_wrap, rule_init, rule_write, rule_drop, rule_mgr, rule_table]
+def rule_late(ctx):
+    from .c04 import rule_same
+    ctx.rule("C03.LATE", "what a command does is decided under the login that was checked for it: the path is resolved (against that user's base directory) in the handler, "
+                         "not in a deferred worker that may run after a re-login (shared with C04.SAME)")
+    ctx.borrow(rule_same, {"C04.SAME": "C03.LATE"}, only=lambda fn: True)
+
+
+RULES = [rule_guard, rule_wrap, rule_init, rule_write, rule_drop, rule_mgr, rule_table, rule_late]
